@@ -491,10 +491,17 @@ def _gen_typ(r, kinds):
     k = r.choice(kinds)
     if k == "nested":
         return r.choice(["Optional[List[str]]", "Dict[str, Union[int, float]]", "List[Optional[int]]", "Optional[Dict[str, int]]"])
+    if k == "fwdref":
+        # subscripts that mix names with string constants (forward references, Annotated metadata): not a Literal, so no `choices`
+        return r.choice(['Union[int, "Node"]', 'Tuple[int, "Node"]', 'Dict[str, "Node"]', 'Annotated[int, "meters"]', 'Optional["Node"]', 'List["Node"]'])
     return irgen.gen_typ(r, kinds=(k,))
 
 
-def make_ir(r, name, kinds=("scalar", "scalar", "optional", "literal", "list", "union", "nested")):
+KINDS_PLAIN = ("scalar", "scalar", "optional", "literal", "list", "union", "nested")
+KINDS_FWD = KINDS_PLAIN + ("scalar", "fwdref")  # only where the emit kind can express an arbitrary annotation (not the SQLAlchemy / JSON-schema type tables)
+
+
+def make_ir(r, name, kinds=KINDS_PLAIN):
     n = r.randint(1, 4)
     params = {}
     for nm in r.sample(irgen.NAMES, n):
@@ -627,7 +634,16 @@ def gen_cli_case(r, k):
         ir["params"] = OrderedDict(ir["params"])
         ir["returns"] = None
         case["json_basename"] = nm + ".json"
-        case["input_text"] = json.dumps(cdd.json_schema.emit.json_schema(ir, "https://example.com/%s.schema.json" % nm))
+        sch = cdd.json_schema.emit.json_schema(ir, "https://example.com/%s.schema.json" % nm)
+        # the smallest legal schemas: an object without properties and / or without description
+        shape = r.random()
+        if shape < 0.12:
+            sch = {k: v for k, v in sch.items() if k in ("$id", "$schema", "type")}
+        elif shape < 0.2:
+            sch.pop("description", None)
+        elif shape < 0.28:
+            sch = {k: v for k, v in sch.items() if k in ("$id", "$schema", "type", "description")}
+        case["input_text"] = json.dumps(sch)
         case["parse"] = r.choice(["json_schema", "json_schema", "infer"])
         return case
     names = r.sample(ENTRY_NAMES, n)
@@ -645,7 +661,7 @@ def gen_cli_case(r, k):
     for nm, ek in zip(names, ekinds):
         for _ in range(20):
             try:
-                srcs.append(entry_source(ek, make_ir(r, nm, kinds=SQLA_TYPES) if ek in ("sqlalchemy", "hybrid", "table") else make_ir(r, nm), r))
+                srcs.append(entry_source(ek, make_ir(r, nm, kinds=SQLA_TYPES) if ek in ("sqlalchemy", "hybrid", "table") else make_ir(r, nm, kinds=KINDS_FWD if case["emit"] in ("argparse", "class") else KINDS_PLAIN), r))
                 break
             except Exception:  # noqa  (an interface the emitter of the *input* format cannot write: draw another)
                 continue
@@ -1006,7 +1022,7 @@ def compare_interface(fail, what, via, emit, src, out):
         return
     for k in src_if:
         a, b = src_cat.get(k, "other"), out_cat.get(k, "other")
-        if a != "other" and b != a:
+        if (a != "other" and b != a) or (b == "literal" and a != "literal"):  # an enumeration (choices / Literal / Enum) may only come from an enumeration
             fail("interface-type", "%s: parameter %r is %s in the source entry and %s in the generated symbol" % (what, k, a, b), via=via, src_type=a, out_type=b)
             return
 
@@ -1246,6 +1262,19 @@ def witness_cases():
         _w(_cls(["a: Union[int, float] = None"]), emit="json_schema"),
         _w(_cls(["a: int = 5", "return_type: bool"]), emit="argparse"),
         _w(_cls(["x1: Optional[float] = None", "epochs: Dict[str, Union[int, float]]"]), emit="sqlalchemy_hybrid", infer=True, tpl="{name}"),
+    ] + [
+        # fixed corners (every seed): the smallest legal JSON-schema files (no properties and / or no description) through every working emit kind
+        _w(json.dumps(sch), kind="json", parse="json_schema", json_basename="marker.json", emit=e)
+        for sch in ({"$id": "https://example.com/marker.schema.json", "$schema": "https://json-schema.org/draft/2020-12/schema", "type": "object"},
+                    {"$id": "https://example.com/marker.schema.json", "$schema": "https://json-schema.org/draft/2020-12/schema", "type": "object", "description": "Marker doc"},
+                    {"$id": "https://example.com/marker.schema.json", "$schema": "https://json-schema.org/draft/2020-12/schema", "type": "object",
+                     "properties": {"a": {"description": "the a", "type": "integer"}}, "required": ["a"]})
+        for e in ("class", "argparse", "json_schema")
+    ] + [
+        # fixed corners: annotations whose subscript mixes names with string constants (forward references, Annotated metadata) are not Literals
+        _w(_cls(attrs), emit=e)
+        for attrs in (['a: Union[int, "Node"] = None'], ['a: int = 5', 'b: Annotated[int, "meters"] = 3'], ['a: Dict[str, "Node"] = None', 'b: Tuple[int, "Node"] = None'])
+        for e in ("argparse", "class")
     ]
 
 
